@@ -1116,3 +1116,84 @@ def _tile(I, a, k):
         s = x.snapshot()
         return SArr(x.dtype, (A.dim(reps[0]), x.shape[0]), lambda idx: s((idx[1],)))
     raise Unsupported("np.tile other than tile(1-d, (k, 1))")
+
+
+# ----------------------------------------------------------------------------- order statistics (A-NP-SPEC)
+def _argmax_axioms(nan_aware):
+    def ax(along, n, r):
+        k = z3.Int(fresh_name("k"))
+        from .core import NAN
+        ok = (lambda t: t != NAN) if nan_aware else (lambda t: z3.BoolVal(True))
+        return [r >= 0, r < n, ok(along(r)),
+                z3.ForAll([k], z3.Implies(z3.And(k >= 0, k < n, ok(along(k))), z3.And(along(k) <= along(r), z3.Implies(k < r, along(k) < along(r)))))]
+    return ax
+
+
+def _argmax_model(nan_aware):
+    def m(I, a, k):
+        if not _anysym(a, k):
+            return NotImplemented
+        x = A.as_sarr(a[0])
+        axis = k.get("axis", a[1] if len(a) > 1 else None)
+        if x.dtype.kind == "b":
+            x = A.astype(x, "int64")
+        if nan_aware:
+            # np.nanargmax raises ValueError on an all-NaN slice
+            from .core import NAN
+            ax_ = (0 if x.ndim == 1 else int(axis) % x.ndim) if axis is not None or x.ndim == 1 else None
+            if ax_ is None:
+                raise Unsupported("nanargmax over a flattened n-d array")
+            rest = [z3.Int(fresh_name("q")) for _ in range(x.ndim - 1)]
+            kk = z3.Int(fresh_name("k"))
+            s = x.snapshot()
+            full = lambda kv: tuple(rest[:ax_] + [kv] + rest[ax_:])     # noqa
+            rng = z3.And(*[z3.And(q >= 0, q < A.T(d)) for q, d in zip(rest, x.shape[:ax_] + x.shape[ax_ + 1:])]) if rest else z3.BoolVal(True)
+            goal = z3.Implies(rng, z3.Exists([kk], z3.And(kk >= 0, kk < A.T(x.shape[ax_]), s(full(kk)) != NAN)))
+            A.oblige("nanargmax.not_all_nan", z3.ForAll(rest, goal) if rest else goal, "np.nanargmax raises ValueError('All-NaN slice encountered') otherwise")
+        return _unbox(A.reduce_axis(x, axis, "nanargmax" if nan_aware else "argmax", np.dtype("int64"), _argmax_axioms(nan_aware)))
+    return m
+
+
+model(np.argmax)(_argmax_model(False))
+model(np.nanargmax)(_argmax_model(True))
+
+
+@model(np.max, np.amax)
+def _npmax(I, a, k):
+    if not _anysym(a, k):
+        return NotImplemented
+    x = A.as_sarr(a[0])
+    axis = k.get("axis", a[1] if len(a) > 1 else None)
+
+    nrest = max(x.ndim - 1, 0) if axis is not None or x.ndim == 1 else 0
+    wf = z3.Function(fresh_name("max_witness"), *([z3.IntSort()] * nrest), z3.IntSort()) if nrest else z3.Int(fresh_name("max_witness"))
+
+    def ax(along, n, r, idx):
+        kq = z3.Int(fresh_name("k"))
+        w = wf(*idx) if nrest else wf          # the position where the maximum is attained (a function of the remaining indices)
+        return [z3.ForAll([kq], z3.Implies(z3.And(kq >= 0, kq < n), along(kq) <= r)), w >= 0, w < n, along(w) == r]
+    return _unbox(A.reduce_axis(x, axis, "max", x.dtype, ax))
+
+
+@model(np.isnan)
+def _isnan(I, a, k):
+    if not _anysym(a, k):
+        return NotImplemented
+    from .core import NAN
+    x = A.as_sarr(a[0])
+    if x.dtype.kind != "f":
+        return _unbox(A.ewise(lambda t: z3.BoolVal(False), bool, x))
+    return _unbox(A.ewise(lambda t: t == NAN, bool, x))
+
+
+@model(np.sign)
+def _sign(I, a, k):
+    if not _anysym(a, k):
+        return NotImplemented
+    x = a[0]
+    if getattr(x, "_pyvc_series", False):
+        from .pdmodel import SSeries
+        return SSeries(_sign(I, [x.arr], {}))
+    xx = A.as_sarr(x)
+    one = (lambda v: z3.RealVal(v)) if xx.dtype.kind == "f" else (lambda v: z3.IntVal(v))
+    return _unbox(A.ewise(lambda t: z3.If(t > 0, one(1), z3.If(t < 0, one(-1), one(0))), xx.dtype, xx))
